@@ -27,8 +27,11 @@ if mods:
         'LbzVerif.Props.C06.deltaWindow_complete',
         'LbzVerif.Props.C06.Block.retrieve_complete',
         'LbzVerif.Props.C06.Block.retrieveAll_complete',
+        'LbzVerif.Props.C06.File.expand_complete',
+        'LbzVerif.Props.C06.File.expand_iff',
+        'LbzVerif.Props.C06.File.expandFile_ne_fuel',
     ])
-inproc.run_libs(ck, ['w12_emit', 'w15_retrieve'])
+inproc.run_libs(ck, ['w12_emit', 'w15_retrieve', 'w22_expand'])
 exe = ck.build_lbzip2(asan=False)
 evals = nontriv = 0
 samples = []
